@@ -1,6 +1,7 @@
 package checks
 
 import (
+	"go/token"
 	"fmt"
 	"go/types"
 	"sort"
@@ -343,6 +344,23 @@ func schemeLiterals(p *core.Program, pred, match *ssa.Function) ([]string, ssa.V
 	if base == nil {
 		return nil, nil, "no call of the matcher with a list element found in the URL predicate"
 	}
+	if g, isG := base.(*ssa.Global); isG {
+		// a package-level list: its closed initialiser (package-level state is not written at run time: C05)
+		v, err := tables.ClosedValue(p, g.Name())
+		sl, isSl := v.(*tables.Slice)
+		if err != nil || !isSl || sl == nil {
+			return nil, nil, "the package-level scheme list has no closed initialiser: undecided"
+		}
+		var lits []string
+		for _, e := range sl.Elems {
+			sv, isS := e.(string)
+			if !isS {
+				return nil, nil, "the package-level scheme list holds a non-string entry: undecided"
+			}
+			lits = append(lits, sv)
+		}
+		return lits, base, ""
+	}
 	alloc := base.(*ssa.Alloc)
 	arr, ok := alloc.Type().(*types.Pointer).Elem().Underlying().(*types.Array)
 	if !ok {
@@ -387,6 +405,14 @@ func arrayBase(v ssa.Value) ssa.Value {
 	switch x := v.(type) {
 	case *ssa.Alloc:
 		return x
+	case *ssa.Global:
+		return x
+	case *ssa.UnOp:
+		// a package-level slice: the loaded slice header
+		if g, ok := x.X.(*ssa.Global); ok && x.Op == token.MUL {
+			return g
+		}
+		return nil
 	case *ssa.Slice:
 		if x.Low != nil || x.High != nil {
 			return nil
@@ -560,12 +586,23 @@ func matcherStepRule(p *core.Program, r *core.Result, match, decode *ssa.Functio
 		r.Fail("D6", qn, "appended byte located", p.Pos(app.Pos()), "cannot identify the byte appended to the collected prefix: undecided")
 		return
 	}
+	cbBlock := cb.(ssa.Instruction).Block()
 	// the first-flag: a bool phi in the loop head (the block that dominates the decoder call and has a back edge)
 	var first *ssa.Phi
 	for _, b := range match.Blocks {
 		for _, ins := range b.Instrs {
 			if ph, ok := ins.(*ssa.Phi); ok {
 				if bt, isB := ph.Type().Underlying().(*types.Basic); isB && bt.Kind() == types.Bool {
+					// only a phi of the loop head counts (a merge of `if first { … first = false }` is derived from it)
+					isHead := false
+					for _, pb := range b.Preds {
+						if b.Dominates(pb) {
+							isHead = true
+						}
+					}
+					if !isHead || !b.Dominates(cbBlock) {
+						continue
+					}
 					if first != nil {
 						r.Fail("D6", qn, "first-flag located", pos, "several boolean loop variables: undecided")
 						return
